@@ -196,6 +196,13 @@ def AA.call (a : AA) (data iteration : Nat) : AA × AARun :=
   else
     if a1.ready then ({ a1 with prev := some data }, .plain data) else (a1, .attributeError)
 
+/-- what can be observed of one Anderson call from outside: was the history reset, how many columns are mixed -/
+def AA.trace (a : AA) (iteration : Nat) : Bool × Nat :=
+  let inner := match a.restart with
+    | some r => iteration % r
+    | none => iteration
+  (inner == 0, min inner a.depth)
+
 /-- a complete accelerated iteration: calls with iteration numbers `0, 1, …` and argument pairs `data` -/
 def AA.run (a : AA) (start : Nat) : List Nat → AA × List AARun
   | [] => (a, [])
@@ -211,19 +218,29 @@ structure WObj where
   deriving DecidableEq, Repr
 
 /-- `linear_solve(matrix, rhs, reuse_solver)`: set up unless reuse is requested and a solver exists;
-returns which matrix the solver used for this solve was built from -/
-def WObj.linearSolve (w : WObj) (matrix : Nat × Nat) (reuse : Bool) : WObj × (Nat × Nat) :=
+returns which matrix the solver used for this solve was built from, and whether it was set up now -/
+def WObj.linearSolve (w : WObj) (matrix : Nat × Nat) (reuse : Bool) : WObj × (Nat × Nat × Bool) :=
   let setup := !reuse || w.solver.isNone
   let s := if setup then matrix else w.solver.getD matrix
-  ({ solver := some s }, s)
+  ({ solver := some s }, (s.1, s.2, setup))
 
-/-- a Newton solve (`reuse_solver=False` in every iteration) or a Bregman solve
-(`reuse_solver = iter > 0`) of `n` iterations on problem `data` -/
-def WObj.solve (bregman : Bool) (w : WObj) (data : Nat) : Nat → Nat → WObj × List (Nat × Nat)
+/-- the nonlinear iterations: Newton assembles a new matrix `(data, it + 1)` in every iteration (`reuse_solver=False`),
+Bregman keeps the matrix `(data, 1)` and re-uses the solver from the second iteration on (`reuse_solver = iter > 0`) -/
+def WObj.iterations (bregman : Bool) (w : WObj) (data : Nat) : Nat → Nat → WObj × List (Nat × Nat × Bool)
   | _, 0 => (w, [])
   | it, n + 1 =>
-    let L := w.linearSolve (data, if bregman then 0 else it) (bregman && decide (it > 0))
-    ((WObj.solve bregman L.1 data (it + 1) n).1, L.2 :: (WObj.solve bregman L.1 data (it + 1) n).2)
+    let L := w.linearSolve (data, if bregman then 1 else it + 1) (bregman && decide (it > 0))
+    ((WObj.iterations bregman L.1 data (it + 1) n).1, L.2 :: (WObj.iterations bregman L.1 data (it + 1) n).2)
+
+/-- `_solve`: the initial Darcy system `(data, 0)` is solved with a freshly set-up solver, then the iterations;
+Bregman ends with the pressure reconstruction, again with a new set-up -/
+def WObj.solve (bregman : Bool) (w : WObj) (data : Nat) (start n : Nat) : WObj × List (Nat × Nat × Bool) :=
+  let I := w.linearSolve (data, 0) false
+  let R := WObj.iterations bregman I.1 data start n
+  if bregman then
+    let F := R.1.linearSolve (data, n + 1) false
+    (F.1, I.2 :: R.2 ++ [F.2])
+  else (R.1, I.2 :: R.2)
 
 /-! ### the process: default instances and user objects -/
 
@@ -258,7 +275,7 @@ inductive Out where
   | mg (es : List MGEvent)
   | solves (rs : List (List MGEvent))    -- one entry per solver call of a regulariser
   | aa (rs : List AARun)
-  | dist (ss : List (Nat × Nat))
+  | dist (ss : List (Nat × Nat × Bool))
   | none
   | noObject
   deriving DecidableEq, Repr
